@@ -109,6 +109,21 @@ pub fn run(tier: &str, seed: u64, em: &mut Emitter) {
             emit(em, "boundary-size", 1, 4, &ev);
         }
     }
+    // the limit counts bytes, not characters: multi-byte padding around the boundary
+    for (ch, w) in [("\u{e9}", 2usize), ("\u{20ac}", 3), ("\u{1F600}", 4)] {
+        for &sz in sizes {
+            let mut ev = sized_event(300, false);
+            let base = {
+                let mut e2 = ev.clone();
+                e2.insert("pad".into(), CanonicalJsonValue::String(String::new()));
+                serde_json::to_string(&e2).unwrap().len()
+            };
+            let n = (sz - base) / w;
+            let fill = (sz - base) % w;
+            ev.insert("pad".into(), CanonicalJsonValue::String(format!("{}{}", ch.repeat(n), "x".repeat(fill))));
+            emit(em, "boundary-size-multibyte", 0, 6, &ev);
+        }
+    }
     // reference-hash size limit: a kept top-level key of boundary size
     for &sz in sizes {
         let mut ev = sized_event(200, false);
